@@ -3,6 +3,7 @@ package keeper
 import (
 	"context"
 	"errors"
+	"strconv"
 
 	"cosmossdk.io/collections"
 	sdkerrors "github.com/cosmos/cosmos-sdk/types/errors"
@@ -18,13 +19,33 @@ func (q queryServer) ListBid(ctx context.Context, req *types.QueryAllBidRequest)
 		return nil, status.Error(codes.InvalidArgument, "invalid request")
 	}
 
-	bids, pageRes, err := query.CollectionPaginate(
+	var isMatched *bool
+	if req.IsMatched != "" {
+		v, err := strconv.ParseBool(req.IsMatched)
+		if err != nil {
+			return nil, status.Errorf(codes.InvalidArgument, "invalid is_matched %s", req.IsMatched)
+		}
+		isMatched = &v
+	}
+
+	// Only the bids of the requested auction, optionally filtered by bidder and matched flag
+	bids, pageRes, err := query.CollectionFilteredPaginate(
 		ctx,
 		q.k.Bid,
 		req.Pagination,
+		func(_ collections.Pair[uint64, uint64], bid types.Bid) (bool, error) {
+			if req.Bidder != "" && bid.Bidder != req.Bidder {
+				return false, nil
+			}
+			if isMatched != nil && bid.IsMatched != *isMatched {
+				return false, nil
+			}
+			return true, nil
+		},
 		func(_ collections.Pair[uint64, uint64], value types.Bid) (types.Bid, error) {
 			return value, nil
 		},
+		query.WithCollectionPaginationPairPrefix[uint64, uint64](req.AuctionId),
 	)
 	if err != nil {
 		return nil, status.Error(codes.Internal, err.Error())
